@@ -200,3 +200,183 @@ pub fn v2_class_at(header: &[u8], pos: usize) -> &'static str {
         }
     }
 }
+
+
+// ------------------------------------------------------------ interference ---
+
+/// The same v2 header with its TLV area laid out differently (same total length): what a
+/// recycled buffer held for the previous connection when only the TLVs differ.
+fn relayout_v2(rng: &mut Rng, judged: &[u8]) -> Option<Vec<u8>> {
+    if !is_v2_stream(judged) || judged.len() < 16 {
+        return None;
+    }
+    let fam = (judged[13] >> 4) as usize;
+    let declared = u16::from_be_bytes([judged[14], judged[15]]) as usize;
+    let fsize = if fam < 4 { wire::FAMILY_SIZE[fam] } else { 0 };
+    let end = (16 + declared).min(judged.len());
+    let start = (16 + fsize).min(end);
+    let n = end - start;
+    if n < 3 {
+        return None;
+    }
+    let mut out = judged.to_vec();
+    relayout_section(rng, &mut out[start..end]);
+    Some(out)
+}
+
+/// Lay a TLV area of at least three bytes out differently, in place.
+pub fn relayout_section(rng: &mut Rng, sec: &mut [u8]) {
+    let n = sec.len();
+    if n < 3 {
+        return;
+    }
+    match rng.below(4) {
+        0 => {
+            // one TLV spanning the whole area
+            sec[0] = rng.byte();
+            sec[1..3].copy_from_slice(&((n - 3).min(65535) as u16).to_be_bytes());
+        }
+        1 => {
+            // empty TLVs back to back
+            for (i, b) in sec.iter_mut().enumerate() {
+                *b = if i % 3 == 0 { 4 } else { 0 };
+            }
+        }
+        2 => {
+            // the first TLV one byte longer / shorter: every later boundary moves
+            let l = u16::from_be_bytes([sec[1], sec[2]]);
+            let l2 = if rng.chance(1, 2) { l.wrapping_add(1) } else { l.wrapping_sub(1) };
+            sec[1..3].copy_from_slice(&l2.to_be_bytes());
+        }
+        _ => {
+            let noise = rng.bytes(n);
+            sec.copy_from_slice(&noise);
+        }
+    }
+}
+
+/// Bytes of some other connection, related or unrelated to the judged stream.
+fn other_stream(rng: &mut Rng, judged: &[u8]) -> Vec<u8> {
+    match rng.below(8) {
+        0 => {
+            // a text line that never got its CR: what a slow or abandoned peer leaves behind
+            let w = wire::gen_v1(rng, false);
+            let mut b = w.bytes;
+            if let Some(p) = b.iter().position(|c| *c == b'\r') {
+                b.truncate(p);
+            }
+            b
+        }
+        1 => gen_hop_stream(rng, false, false, 50).stream,
+        2 => {
+            // the judged stream without its first CR: a longer CR-free run at the same place
+            let mut b = judged.to_vec();
+            if let Some(p) = b.iter().position(|c| *c == b'\r') {
+                if p >= 12 {
+                    b.remove(p);
+                }
+            }
+            b
+        }
+        3 | 4 => match relayout_v2(rng, judged) {
+            Some(b) => b,
+            None => {
+                // same length, one byte in the second half different
+                let mut b = judged.to_vec();
+                if b.len() > 1 {
+                    let i = rng.range(b.len() / 2, b.len() - 1);
+                    b[i] = b[i].wrapping_add(1 + rng.below(255) as u8);
+                }
+                b
+            }
+        },
+        5 => wire::gen_v2(rng, false).0.bytes,
+        6 => {
+            // same length, same first 16 bytes, the rest noise
+            let mut b = judged.to_vec();
+            let keep = 16.min(b.len());
+            let noise = rng.bytes(b.len() - keep);
+            b[keep..].copy_from_slice(&noise);
+            b
+        }
+        _ => {
+            // a partial text line, as long as or longer than the judged header
+            let mut b = b"PROXY TCP6 ".to_vec();
+            b.extend(std::iter::repeat(b'f').take(rng.range(0, 90)));
+            b
+        }
+    }
+}
+
+fn cuts_for(rng: &mut Rng, len: usize, max: usize, complete: bool) -> Vec<usize> {
+    let mut cuts: Vec<usize> = Vec::new();
+    let n = rng.range(1, max.max(1));
+    let last = if complete || len == 0 { len } else { rng.range(len / 2, len) };
+    for _ in 0..n - 1 {
+        cuts.push(rng.range(0, last));
+    }
+    cuts.sort_unstable();
+    cuts.push(last);
+    cuts
+}
+
+/// Other connections on the judged receiver's thread (one run in five, keyed on the run index
+/// and drawn from a stream of its own, so that the scenario proper is what it was without
+/// them): the receive buffer comes from a pool and was used — and parsed in — by a previous
+/// connection; up to two neighbours have their receive steps interleaved with the judged
+/// connection's. With a library that keeps nothing between calls this changes no verdict.
+pub fn add_interference(sc: &mut Scenario, index: u64) {
+    if index % 5 != 3 || sc.ctor.is_some() || sc.stream.is_empty() {
+        return;
+    }
+    let mut rng = Rng::new(
+        crate::rng::splitmix64(sc.aux ^ crate::rng::fnv(&sc.stream) ^ index.wrapping_mul(0x9E37_79B9_7F4A_7C15) ^ 0xC0FFEE),
+    );
+    let judged = sc.stream.clone();
+    let entry_for = |rng: &mut Rng, own: Entry| -> Entry {
+        if rng.chance(2, 3) {
+            own
+        } else {
+            *rng.pick(&Entry::ALL)
+        }
+    };
+    if sc.sub == "raw_section" {
+        // a raw TLV section handed to the iterator: the same memory held another section of the
+        // same size a moment ago
+        let mut prev = judged.clone();
+        relayout_section(&mut rng, &mut prev);
+        let n = prev.len();
+        sc.recycled = Some(crate::scenario::Neighbor {
+            entry: Entry::V2,
+            stream: prev,
+            cuts: vec![n],
+        });
+        return;
+    }
+    let kind = rng.below(3);
+    if kind != 1 {
+        let stream = other_stream(&mut rng, &judged);
+        let complete = rng.chance(1, 2);
+        let cuts = cuts_for(&mut rng, stream.len(), 4, complete);
+        sc.recycled = Some(crate::scenario::Neighbor {
+            entry: entry_for(&mut rng, sc.entry),
+            stream,
+            cuts,
+        });
+        if rng.chance(1, 2) {
+            sc.set_meta("no_initial_parse", 1);
+        }
+    }
+    if kind != 0 {
+        for _ in 0..rng.range(1, 2) {
+            let stream = other_stream(&mut rng, &judged);
+            let complete = rng.chance(1, 3);
+            let cuts = cuts_for(&mut rng, stream.len(), 12, complete);
+            sc.neighbors.push(crate::scenario::Neighbor {
+                entry: entry_for(&mut rng, sc.entry),
+                stream,
+                cuts,
+            });
+        }
+    }
+}
